@@ -18,7 +18,6 @@ FixNames == {"queue-distributor-len",   \* fixes/queue-distributor-len-locked.di
              "collector-resolve-copy"}  \* fixes/collector-resolve-snapshot.diff
 ASSUME Fixed \subseteq FixNames
 
-Fx(n) == n \in Fixed
 
 (***************************************************************************)
 (* Step constructors                                                        *)
@@ -166,8 +165,11 @@ Helper ==
   @@ "Deque.waitPushAfter" :> H("deque.mtx", "pubsub.Deque.waitPushAfter",
         <<C("dtracker.cap"), C("dtracker.len"), R("deque.closed"), CW("deque.mtx"),
           C("dtracker.cap"), C("dtracker.len"), R("deque.list"), C("Deque.addAfter")>>)
-  \* deque.go:311 the closure built by confProducer; only handed out wrapped in WithLock(dq.mtx)
+  \* deque.go:311 the closure built by confProducer; only handed out wrapped in WithLock(dq.mtx).
+  \* Only the blocking producers wait (deque.go:316-319).
   @@ "Deque.confProducer()" :> H("deque.mtx", "pubsub.Deque.confProducer",
+        <<R("deque.iter"), W("deque.iter"), R("deque.list"), W("deque.iter")>>)
+  @@ "Deque.confProducer(blocking)()" :> H("deque.mtx", "pubsub.Deque.confProducer",
         <<R("deque.iter"), W("deque.iter"), R("deque.list"), C("Deque.element.wait"), R("deque.list"), W("deque.iter")>>)
   \* sync.go:34 WaitGroup.init (called with wg.mu held from Add and Wait)
   @@ "WaitGroup.init" :> H("wg.mu", "fun.WaitGroup.init", <<R("wg.cond"), W("wg.cond")>>)
@@ -209,7 +211,7 @@ Helper ==
 M(c, p, s) == [c |-> c, p |-> p, s |-> s]
 Locked(x, body) == <<L(x)>> \o body \o <<U(x)>>
 
-QueueTable ==
+QueueTable(F) ==
      "Queue.Add"    :> M("queue", TRUE, Locked("queue.mu", <<C("Queue.doAdd")>>))                     \* queue.go:94
   @@ "Queue.Len"    :> M("queue", TRUE, Locked("queue.mu", <<C("qtracker.len")>>))                    \* queue.go:103
   @@ "Queue.BlockingAdd" :> M("queue", TRUE, Locked("queue.mu",                                       \* queue.go:137
@@ -230,16 +232,16 @@ QueueTable ==
   @@ "Queue.Distributor().Send"    :> M("queue", TRUE, <<C("Queue.Add")>>)                             \* queue.go:350
   @@ "Queue.Distributor().Receive" :> M("queue", TRUE, <<C("Queue.Remove"), C("Queue.Wait")>>)        \* queue.go:351-358
   @@ "Queue.Distributor().Len"     :> M("queue", TRUE,                                                 \* queue.go:359 size: q.tracker.len
-        IF Fx("queue-distributor-len") THEN <<C("Queue.Len")>> ELSE <<C("qtracker.len")>>)
+        IF "queue-distributor-len" \in F THEN <<C("Queue.Len")>> ELSE <<C("qtracker.len")>>)
   @@ "Queue.Distributor().Iterator().ReadOne" :> M("queue", TRUE, <<C("Queue.Distributor().Receive")>>) \* buffer.go:77
   \* internal: the goroutine `<-ctx.Done(); q.mu.Lock(); defer q.mu.Unlock(); cond.Broadcast()` queue.go:153,206,238
   @@ "Queue.ctxHelper" :> M("queue", FALSE, Locked("queue.mu", <<>>))
   \* internal, currently without callers: queue.go:226
   @@ "Queue.waitForNew" :> M("queue", FALSE, Locked("queue.mu", <<R("queue.list"), C("Queue.unsafeWaitForLink")>>))
 
-DequeProducer(name, line) ==
+DequeProducer(name, helper) ==
      name :> M("deque", TRUE, Locked("deque.mtx", <<>>))                               \* constructor: takes the lock, builds the closure
-  @@ (name \o "()") :> M("deque", TRUE, Locked("deque.mtx", <<C("Deque.confProducer()")>>)) \* .WithLock(dq.mtx)  producer.go:343
+  @@ (name \o "()") :> M("deque", TRUE, Locked("deque.mtx", <<C(helper)>>))            \* .WithLock(dq.mtx)  producer.go:343
 
 DequeTable ==
      "Deque.Len"        :> M("deque", TRUE, Locked("deque.mtx", <<C("dtracker.len")>>))                         \* deque.go:113
@@ -256,10 +258,10 @@ DequeTable ==
         <<C("dtracker.cap"), C("dtracker.len"), R("deque.list"), C("Deque.pop"), C("Deque.addAfter")>>))
   @@ "Deque.WaitPushFront"  :> M("deque", TRUE, Locked("deque.mtx", <<C("Deque.waitPushAfter")>>))              \* deque.go:206
   @@ "Deque.WaitPushBack"   :> M("deque", TRUE, Locked("deque.mtx", <<C("Deque.waitPushAfter")>>))              \* deque.go:216
-  @@ DequeProducer("Deque.Producer", 273)
-  @@ DequeProducer("Deque.ProducerBlocking", 284)
-  @@ DequeProducer("Deque.ProducerReverse", 293)
-  @@ DequeProducer("Deque.ProducerReverseBlocking", 304)
+  @@ DequeProducer("Deque.Producer", "Deque.confProducer()")                                  \* deque.go:273
+  @@ DequeProducer("Deque.ProducerBlocking", "Deque.confProducer(blocking)()")               \* deque.go:284
+  @@ DequeProducer("Deque.ProducerReverse", "Deque.confProducer()")                           \* deque.go:293
+  @@ DequeProducer("Deque.ProducerReverseBlocking", "Deque.confProducer(blocking)()")        \* deque.go:304
   @@ "Deque.Iterator"        :> M("deque", TRUE, <<C("Deque.Producer")>>)                                       \* deque.go:258
   @@ "Deque.IteratorReverse" :> M("deque", TRUE, <<C("Deque.ProducerReverse")>>)                                \* deque.go:265
   @@ "Deque.Iterator().ReadOne"        :> M("deque", TRUE, <<C("Deque.Producer()")>>)
@@ -283,6 +285,7 @@ BrokerTable(kind, send, recv, len) ==
     @@ n("Subscribe")   :> M(c, TRUE, <<BLK, W("broker.chans"), W("broker.subs")>>)                      \* broker.go:294,154
     @@ n("Unsubscribe") :> M(c, TRUE, <<BLK, W("broker.chans"), W("broker.subs")>>)                      \* broker.go:308,156
     @@ n("Stats")       :> M(c, TRUE, <<BLK, W("broker.chans"), R("broker.subs"), C(len)>>)              \* broker.go:244,157-161
+    @@ n("Populate()")  :> M(c, TRUE, <<C(n("Publish"))>>)                                               \* broker.go:229 the worker it returns publishes every item
     @@ n("Stop")        :> M(c, TRUE, Locked("broker.mu", <<R("broker.close")>>))                        \* broker.go:271
     @@ n("Wait")        :> M(c, TRUE, Locked("broker.mu", <<BLK, R("broker.wg")>>))                      \* broker.go:280 (blocks holding b.mu)
 
@@ -304,12 +307,14 @@ WaitGroupTable ==
   @@ "WaitGroup.DoTimes"     :> M("waitgroup", TRUE, <<C("WaitGroup.Launch")>>)                          \* sync.go:84
   @@ "WaitGroup.ctxHelper"   :> M("waitgroup", FALSE, Locked("wg.mu", <<R("wg.cond")>>))                 \* sync.go:137
 
-CollectorTable ==
+CollectorTable(F) ==
      "Collector.Add"       :> M("collector", TRUE, Locked("collector.mu", <<R("collector.stack"), W("collector.stack")>>)) \* errors.go:46
   @@ "Collector.Handler()" :> M("collector", TRUE, <<C("Collector.Add")>>)                               \* errors.go:57
   @@ "Collector.Len"       :> M("collector", TRUE, Locked("collector.mu", <<R("collector.stack")>>))     \* errors.go:70
   @@ "Collector.Iterator"  :> M("collector", TRUE, Locked("collector.mu", <<R("collector.stack")>>))     \* errors.go:76 (copies the head: merged.go:229-236)
-  @@ "Collector.Iterator().ReadOne" :> M("collector", TRUE, <<R("collector.copy"), R("collector.tail")>>)
+  \* an iterator of the Collector is private to the goroutine that made it (its producer's position is not
+  \* synchronised, merged.go:237-244; ReadOne is safe only for producers that are): only the nodes are shared
+  @@ "Collector.Iterator().ReadOne" :> M("collector", TRUE, <<C("Collector.Iterator"), R("collector.copy"), R("collector.tail")>>)
   @@ "Collector.Resolve"   :> M("collector", TRUE, Locked("collector.mu", <<R("collector.stack")>>))     \* errors.go:85 returns &ec.stack
   @@ "Collector.Future()"  :> M("collector", TRUE, <<C("Collector.Resolve")>>)                           \* errors.go:62
   @@ "Collector.HasErrors" :> M("collector", TRUE, <<C("Collector.Len")>>)                               \* errors.go:97
@@ -317,7 +322,7 @@ CollectorTable ==
   \* use of the *ers.Stack handed out by Resolve (Error / Unwind / errors.Is): it IS ec.stack (errors.go:92).
   \* Not a method of the Collector: judged only when JudgeHandedOut (DESIGN 5.0: weakest obligation).
   @@ "Collector.Resolve().use" :> M("collector", TRUE,
-        IF Fx("collector-resolve-copy") THEN <<R("collector.copy"), R("collector.tail")>>
+        IF "collector-resolve-copy" \in F THEN <<R("collector.copy"), R("collector.tail")>>
                                         ELSE <<R("collector.stack"), R("collector.tail")>>)
 
 SynchronizedTable ==
@@ -376,14 +381,14 @@ PoolTable(c) ==
 
 \* dt.Set with a mutex.  `pre` selects the receiver: "" = the set itself, "o" = the other set of Equal / Extend
 \* (its methods are drivable as "<name>@o").
-SetProducerCall(cp) ==      \* the closure returned by Producer (set.go:195-206)
-  IF Fx("set-producer-lock")
+SetProducerCall(F, cp) ==      \* the closure returned by Producer (set.go:195-206)
+  IF "set-producer-lock" \in F
   THEN Locked(cp \o ".mtx", <<R(cp \o ".iter"), W(cp \o ".iter"), R(cp \o ".list"), R(cp \o ".snap")>>)
   ELSE \* as is: the deferred function computes out.WithLock(mu) and drops it (set.go:197); the list producer walks the
        \* list (list.go:323-332) and the map producer ranges over the map in its own goroutine (map.go:216-230)
        <<R(cp \o ".iter"), W(cp \o ".iter"), R(cp \o ".list"), R(cp \o ".hash")>>
 
-SetTable ==
+SetTable(F) ==
      "Set.Synchronize" :> M("set", TRUE, <<W("set.mtxp")>>)                                                      \* set.go:57 (CompareAndSwap)
   @@ "Set.Order"      :> M("set", TRUE, <<C("Set.lock"), R("set.list"), R("set.hash"), W("set.list"), U("set.mtx")>>)  \* set.go:62
   @@ "Set.SortQuick"  :> M("set", TRUE, <<C("Set.lock"), R("set.list"), C("Set.forceSetupOrdered"), W("set.list"), U("set.mtx")>>) \* set.go:76
@@ -395,7 +400,7 @@ SetTable ==
   @@ "Set.DeleteCheck" :> M("set", TRUE, <<C("Set.lock"), R("set.hash"), W("set.list"), W("set.hash"), U("set.mtx")>>) \* set.go:141
   @@ "Set.Delete"     :> M("set", TRUE, <<C("Set.DeleteCheck")>>)                                                \* set.go:133
   @@ "Set.Producer"   :> M("set", TRUE, <<C("Set.lock"), R("set.mtxp"), R("set.list"), R("set.hash"), U("set.mtx")>>) \* set.go:195
-  @@ "Set.Producer()" :> M("set", TRUE, SetProducerCall("set"))
+  @@ "Set.Producer()" :> M("set", TRUE, SetProducerCall(F, "set"))
   @@ "Set.Iterator"   :> M("set", TRUE, <<C("Set.Producer")>>)                                                   \* set.go:137
   @@ "Set.Iterator().ReadOne" :> M("set", TRUE, <<C("Set.Producer()")>>)
   @@ "Set.MarshalJSON"   :> M("set", TRUE, <<C("Set.Iterator"), C("Set.Producer()")>>)                           \* set.go:240
@@ -404,14 +409,14 @@ SetTable ==
   @@ "Set.Extend"     :> M("set", TRUE, <<C("Set.Producer@o"), C("Set.Producer()@o"), C("Set.Add")>>)            \* set.go:182
   @@ "Set.Equal"      :> M("set", TRUE,                                                                           \* set.go:209-237
         <<C("Set.lock"), R("set.hash"), C("Set.Len@o"), C("Set.isOrdered")>>
-        \o (IF Fx("set-equal-other") THEN <<C("oSet.lock"), C("oSet.isOrdered"), U("oset.mtx")>> ELSE <<C("oSet.isOrdered")>>)
+        \o (IF "set-equal-other" \in F THEN <<C("oSet.lock"), C("oSet.isOrdered"), U("oset.mtx")>> ELSE <<C("oSet.isOrdered")>>)
         \o <<C("Set.unsafeIterator"), R("set.list"), R("set.hash"),
              C("Set.Producer@o"), C("Set.Producer()@o"), C("Set.Check@o"), U("set.mtx")>>)
   \* the same methods with the other set as receiver (only those Equal / Extend read against)
   @@ "Set.Len@o"      :> M("set", FALSE, <<C("oSet.lock"), R("oset.hash"), U("oset.mtx")>>)
   @@ "Set.Check@o"    :> M("set", FALSE, <<C("oSet.lock"), R("oset.hash"), U("oset.mtx")>>)
   @@ "Set.Producer@o" :> M("set", FALSE, <<C("oSet.lock"), R("oset.mtxp"), R("oset.list"), R("oset.hash"), U("oset.mtx")>>)
-  @@ "Set.Producer()@o" :> M("set", FALSE, SetProducerCall("oset"))
+  @@ "Set.Producer()@o" :> M("set", FALSE, SetProducerCall(F, "oset"))
   @@ "Set.Add@o"      :> M("set", TRUE, <<C("oSet.lock"), R("oset.hash"), R("oset.list"), W("oset.list"), W("oset.hash"), U("oset.mtx")>>)
   @@ "Set.Delete@o"   :> M("set", TRUE, <<C("oSet.lock"), R("oset.hash"), W("oset.list"), W("oset.hash"), U("oset.mtx")>>)
   @@ "Set.SortQuick@o" :> M("set", TRUE, <<C("oSet.lock"), R("oset.list"), C("oSet.forceSetupOrdered"), W("oset.list"), U("oset.mtx")>>)
@@ -440,14 +445,19 @@ WrapTable ==
   @@ "Operation.Limit()" :> M("wrap.Operation.Limit", TRUE, <<R("oplimit.counter"), W("oplimit.counter")>>)
   @@ "Mnemonize()" :> M("wrap.Mnemonize", TRUE, <<OB("w.once"), W("once.body"), W("once.result"), OE("w.once"), R("once.result")>>) \* atomics.go:34
 
-Method ==
-     QueueTable @@ DequeTable
+\* the table for a given set F of repairs
+MethodF(F) ==
+     QueueTable(F) @@ DequeTable
   @@ BrokerTable("chan",  "chan.send", "chan.recv", "chan.len") @@ ChanDist
   @@ BrokerTable("queue", "Queue.Distributor().Send", "Queue.Distributor().Receive", "Queue.Distributor().Len")
   @@ BrokerTable("deque", "Deque.Distributor().Send", "Deque.Distributor().Receive", "Deque.Distributor().Len")
   @@ BrokerTable("lifo",  "Deque.DistributorNonBlocking().Send", "Deque.DistributorNonBlocking().Receive", "Deque.DistributorNonBlocking().Len")
-  @@ WaitGroupTable @@ CollectorTable @@ SynchronizedTable @@ AtomicTable @@ OnceTable @@ MapTable
-  @@ PoolTable("pool") @@ SetTable @@ AccessorTable @@ WrapTable
+  @@ WaitGroupTable @@ CollectorTable(F) @@ SynchronizedTable @@ AtomicTable @@ OnceTable @@ MapTable
+  @@ PoolTable("pool") @@ SetTable(F) @@ AccessorTable @@ WrapTable
+
+Method    == MethodF(Fixed)             \* what the model checks
+MethodAlt == MethodF(FixNames \ Fixed)  \* every repair flipped: the obligations for the observers are taken from both,
+                                        \* so that they do not depend on which repairs the repository carries
 
 Methods == DOMAIN Method
 
@@ -466,7 +476,7 @@ Classes ==
   @@ "once"         :> <<"new", "defined", "done">>
   @@ "map"          :> <<"empty", "nonempty">>
   @@ "pool"         :> <<"new", "configured", "finalized">>
-  @@ "set"          :> <<"unordered/empty", "unordered/nonempty", "ordered/empty", "ordered/nonempty">>
+  @@ "set"          :> <<"unordered/fresh", "unordered/empty", "unordered/nonempty", "ordered/empty", "ordered/nonempty">> \* fresh: Synchronize() only, the map not made yet
   @@ "accessors"    :> <<"any">>
   @@ "accessors.rw" :> <<"any">>
 
@@ -478,18 +488,21 @@ ClassesOf(c) == IF c \in DOMAIN Classes THEN Classes[c]
 (***************************************************************************)
 (* Flattening                                                               *)
 (***************************************************************************)
-Body(n)  == IF n \in DOMAIN Helper THEN Helper[n].s ELSE Method[n].s
+BodyT(T, n) == IF n \in DOMAIN Helper THEN Helper[n].s ELSE T[n].s
+Body(n)  == BodyT(Method, n)
 Needs(n) == IF n \in DOMAIN Helper THEN Helper[n].needs ELSE "none"
 Probe(n) == IF n \in DOMAIN Helper THEN Helper[n].probe ELSE "-"
 
-RECURSIVE Flat(_)
-Flat(s) == IF s = <<>> THEN <<>>
-           ELSE LET h == Head(s)
-                IN (CASE h.k = "C"  -> <<[k |-> "E", a |-> h.a]>> \o Flat(Body(h.a))
-                      [] h.k = "CW" -> <<U(h.a), L(h.a)>>
-                      [] OTHER      -> <<h>>) \o Flat(Tail(s))
+RECURSIVE FlatT(_, _)
+FlatT(T, s) == IF s = <<>> THEN <<>>
+               ELSE LET h == Head(s)
+                    IN (CASE h.k = "C"  -> <<[k |-> "E", a |-> h.a]>> \o FlatT(T, BodyT(T, h.a))
+                          [] h.k = "CW" -> <<U(h.a), L(h.a)>>
+                          [] OTHER      -> <<h>>) \o FlatT(T, Tail(s))
+Flat(s) == FlatT(Method, s)
 
-FlatOf == [m \in Methods |-> Flat(Method[m].s)]
+FlatOf  == [m \in Methods |-> FlatT(Method, Method[m].s)]
+FlatAlt == [m \in Methods |-> FlatT(MethodAlt, MethodAlt[m].s)]
 Range(f) == {f[i] : i \in DOMAIN f}
 
 Comps    == {Method[m].c : m \in Methods}
@@ -521,7 +534,7 @@ ASSUME StepsWellFormed
 (***************************************************************************)
 (* What the observers have to do (printed once, parsed by run/props/c13.py) *)
 (***************************************************************************)
-Acc(m) == {<<s.a, s.k>> : s \in {x \in Range(FlatOf[m]) : IsAccess(x)}}
+Acc(m) == {<<s.a, s.k>> : s \in {x \in Range(FlatOf[m]) \cup Range(FlatAlt[m]) : IsAccess(x)}}
 Conflict(m1, m2) == \E a1 \in Acc(m1), a2 \in Acc(m2) :
                        /\ a1[1] = a2[1] /\ (a1[2] = "W" \/ a2[2] = "W")
                        /\ Guard[a1[1]].kind # "immutable"
@@ -542,7 +555,7 @@ IdxOf == [c \in Comps |-> [m \in Public(c) |-> CHOOSE i \in DOMAIN PubSeqOf[c] :
 UPairsOf(c) == {p \in (Public(c) \X Public(c)) : IdxOf[c][p[1]] <= IdxOf[c][p[2]] /\ Conflict(p[1], p[2])}
 
 \* (public method, probe point) for every "caller must hold the lock" helper on the method's path
-ChokePairs(c) == UNION {{<<m, Probe(e.a)>> : e \in {x \in Range(FlatOf[m]) : x.k = "E" /\ Needs(x.a) # "none"}} : m \in Public(c)}
+ChokePairs(c) == UNION {{<<m, Probe(e.a)>> : e \in {x \in Range(FlatOf[m]) \cup Range(FlatAlt[m]) : x.k = "E" /\ Needs(x.a) # "none"}} : m \in Public(c)}
 
 Obligations(c) ==
   [comp     |-> c,
